@@ -93,7 +93,7 @@ def row_cells(table: str, asset: str, row: Dict[str, Any], layout: Dict[str, int
         value = values.get(field)
         if value is None:
             cells[col] = None
-        elif field in NUMERIC_FIELDS:
+        elif field in NUMERIC_FIELDS or (field == "unique_id" and row.get("uid_numeric")):
             cells[col] = float(value)
         else:
             cells[col] = str(value)
@@ -175,12 +175,20 @@ def _cell_from_xml(node: ET.Element) -> Cell:
     return Cell(value=value, vtype=vtype, formula=formula, text=text)
 
 
+class Sheets(dict):  # type: ignore[type-arg]
+    """{sheet name: rows}; `all_names` lists every table of the document in order, duplicates included (a dict alone would
+    silently merge two sheets of the same name - which is exactly what a reader following a hyperlink cannot tell apart)."""
+
+    all_names: List[str]
+
+
 def read_ods(path: str) -> Dict[str, List[List[Cell]]]:
     """{sheet name: rows of Cell} in document order (dict order = sheet order); repeated rows/columns are expanded
-    (trailing empty repetitions are capped)."""
+    (trailing empty repetitions are capped).  With duplicate sheet names the first one wins in the mapping; see Sheets.all_names."""
     with zipfile.ZipFile(path) as archive:
         root = ET.fromstring(archive.read("content.xml"))
-    result: Dict[str, List[List[Cell]]] = {}
+    result = Sheets()
+    result.all_names = []
     for table in root.iter(_T + "table"):
         name = table.get(_T + "name")
         rows: List[List[Cell]] = []
@@ -195,7 +203,9 @@ def read_ods(path: str) -> Dict[str, List[List[Cell]]]:
                 cells.extend([cell] * (repeat if not cell.empty else min(repeat, 64)))
             for _ in range(repeat_rows if any(not c.empty for c in cells) else min(repeat_rows, 4)):
                 rows.append(cells)
-        result[name] = rows
+        result.all_names.append(name)
+        if name not in result:
+            result[name] = rows
     return result
 
 
